@@ -49,7 +49,7 @@ def schedule(dc, sc, res, rng, label, kind):
     else:
         # the cache may have been created with another Disk class and a setting of its own (JSONDisk, compress level 6)
         # that the other contenders' handles do not repeat: they name the class (it is not stored) and find the rest
-        json_disk = rng.random() < 0.25
+        json_disk = rng.random() < 0.4
         first_kw = {'disk': dc.JSONDisk, 'disk_compress_level': 6} if json_disk else {}
         later_kw = {'disk': dc.JSONDisk} if json_disk else {}
         res.count('schedules_on_jsondisk' if json_disk else 'schedules_on_disk')
@@ -62,7 +62,7 @@ def schedule(dc, sc, res, rng, label, kind):
             res.count('schedules_with_housekeeping_bystanders')
         base = dc.Cache(d, timeout=0, **first_kw)
         caches = LateHandles(rng, n, lambda: dc.Cache(d, timeout=0, **later_kw), shared=base if topo == 'shared' else None,
-                             reopen=0.0, first=base if rng.random() < 0.6 else None)
+                             reopen=0.0, first=base if rng.random() < (0.9 if json_disk else 0.5) else None)
     value = rng.randrange(1, 4) if kind == 'semaphore' else 1
     # the lock lives under an ordinary cache key: any key is legal, falsy ones too
     lock_key = rng.choice(['the-lock', 'the-lock', '', 0, b'', ('lock', 1), 0.0])
